@@ -69,6 +69,7 @@ type Frame struct {
 	callSite string
 	ranges   []*ssa.Range
 	specOldState *State
+	loopHead map[*ssa.BasicBlock]*State // state at the head of each loop (after the cut), for step clauses
 }
 
 type deferred struct {
@@ -1197,6 +1198,23 @@ func (x *Exec) checkInvariants(fr *Frame, h *ssa.BasicBlock, st *State, when str
 		t := x.evalGhost(fr, gf, x.invArgs(fr, st, ls), x.invArgs(fr, fr.entry, ls), st, fr.entry)
 		x.oblige(fr, "invariant@"+when, fmt.Sprintf("loop %d inv %d: %s", n, i+1, cl.Orig), st, t, h.Instrs[0].Pos())
 	}
+	if when == "back" {
+		head := fr.loopHead[h]
+		if head == nil {
+			head = fr.entry // dry run only: its obligations are discarded
+		}
+		for i, cl := range ls.Steps {
+			if skipClause(cl, x.eng) {
+				continue
+			}
+			gf := x.eng.ghostFunc(fr.fn.Pkg.Pkg.Path(), cl.Ghost)
+			if gf == nil {
+				panic(engErr("ghost function %s missing", cl.Ghost))
+			}
+			t := x.evalGhost(fr, gf, x.invArgs(fr, st, ls), x.invArgs(fr, head, ls), st, head)
+			x.oblige(fr, "step", fmt.Sprintf("loop %d step %d: %s", n, i+1, cl.Orig), st, t, h.Instrs[0].Pos())
+		}
+	}
 }
 
 func (x *Exec) enterLoop(fr *Frame, h *ssa.BasicBlock, st *State) *State {
@@ -1313,6 +1331,10 @@ func (x *Exec) enterLoop(fr *Frame, h *ssa.BasicBlock, st *State) *State {
 			x.vc.assert(implies(hs.reach, t))
 		}
 	}
+	if fr.loopHead == nil {
+		fr.loopHead = map[*ssa.BasicBlock]*State{}
+	}
+	fr.loopHead[h] = hs.clone()
 	return hs
 }
 
